@@ -163,7 +163,7 @@ def harnesses(tier):
             hs.append(h)
         return hs
     hs = [H(f, a, b, t) for f in ("switch_latest", "switch_map") for a in S0_T for b in S1_T for t in ("C", "E")]
-    for c in DEEP:
+    for c in DEEP[:3]:
         h = H(*c)
         h.pb = 2
         h.name += "|PB2"
